@@ -322,7 +322,13 @@ def main(fd, verbose=0):
                     if verbose:
                         util.debug(f"[ResourceTracker] unlink {name}")
                 except Exception as e:
-                    warnings.warn(f"resource_tracker: {name}: {e!r}")
+                    try:
+                        warnings.warn(f"resource_tracker: {name}: {e!r}")
+                    except Exception:
+                        # With warnings turned into errors, a resource that
+                        # cannot be cleaned up must not prevent the clean-up
+                        # of the remaining ones.
+                        pass
 
         for rtype, rtype_registry in registry.items():
             if rtype == "folder":
